@@ -1,8 +1,8 @@
-\* thorough: 3 threads x 2 requests
+\* thorough: 3 threads x 2 requests, sizes {1, c, c+1}
 SPECIFICATION Spec
 CONSTANTS
   Threads = {t1, t2, t3}
-  Sizes = {1, 3, 4, 5, 9}
+  Sizes = {1, 4, 5}
   Kinds = {"plain"}
   C0 = 4
   MaxAlloc = 16
